@@ -10,7 +10,7 @@ from __future__ import annotations
 import ast
 from typing import Dict, List, Optional, Set, Tuple
 
-from oqv.astutil import call_name, method_call
+from oqv.astutil import branch_context, call_name, method_call
 from oqv.cfg import CFG
 from oqv.dataflow import DefUse, origin, origin_text
 from oqv.model import AnalysisError, Program, Unit, dotted, norm, walk_local
@@ -245,29 +245,70 @@ def e2(prog: Program, chk: Check, rule: str = "E2") -> None:
             return "(U, U^dagger)" + tr
         return f"({norm(a)}, {norm(b)})" + tr
 
-    # the back end stores the pair in two attributes; the direction is in the attribute name
+    # the back end stores the pair in two attributes; the direction is in the attribute name.
+    # The constructions may live in the rotating method or in a constructor - but every object
+    # whose initialize_mps_mpo runs must have executed them: the class that defines the method
+    # is itself instantiated (by the mean-field back end), so constructions that only a
+    # subclass performs, or that sit under a condition, leave objects without basis change.
     u = prog.unit(sites[0])
-    du0 = DefUse(u, CFG(u.node, exc_edges=False))
-    chk.saw(u, du0.cfg)
-    found = 0
-    for st in walk_local(u.node):
-        if not isinstance(st, ast.Assign):
+    base_ci = prog.class_of_unit(u)
+    if base_ci is None:
+        raise AnalysisError(f"{rule}: class of {sites[0]} not found")
+    family = [base_ci] + [c for c in prog.subclasses(base_ci) if c is not base_ci]
+    bases = [c for c in prog.mro(base_ci)]
+    instantiated = set()
+    for w in prog.units.values():
+        if isinstance(w.node, ast.Lambda):
             continue
-        tname = dotted(st.targets[0]) or ""
-        if not tname.startswith("self."):
-            continue
-        kind = kind_of(origin(du0, du0.node_of(st.value), st.value))
-        if kind is None:
-            continue
-        found += 1
-        want = "(U^dagger, U)" if tname.endswith("_dagg") else "(U, U^dagger)"
-        chk.add(rule, u, f"{tname} = left_right_super{kind}", kind == want,
-                "" if kind == want else
-                f"expected {want}: the basis change into the diagonal basis and back are "
-                f"not mutual adjoints", st)
-    if found != 2:
-        chk.add(rule, u, "pair of left_right_super constructions", False,
-                f"{found} constructions found, expected 2")
+        for c in walk_local(w.node):
+            if isinstance(c, ast.Call) and isinstance(c.func, ast.Name):
+                for fc in family:
+                    if c.func.id == fc.name:
+                        instantiated.add(fc.name)
+    found = []
+    for ci_ in {c.qual: c for c in family + bases}.values():
+        for mname, mu in ci_.methods.items():
+            du_m = DefUse(mu, CFG(mu.node, exc_edges=False))
+            for st in walk_local(mu.node):
+                if not isinstance(st, ast.Assign):
+                    continue
+                tname = dotted(st.targets[0]) or ""
+                if not tname.startswith("self."):
+                    continue
+                kind = kind_of(origin(du_m, du_m.node_of(st.value), st.value))
+                if kind is None:
+                    continue
+                chk.saw(mu, du_m.cfg)
+                found.append((ci_, mname, mu, st, tname))
+                want = "(U^dagger, U)" if tname.endswith("_dagg") else "(U, U^dagger)"
+                chk.add(rule, mu, f"{tname} = left_right_super{kind}", kind == want,
+                        "" if kind == want else
+                        f"expected {want}: the basis change into the diagonal basis and back are "
+                        f"not mutual adjoints", st)
+    if len(found) != 2:
+        chk.add(rule, u, "pair of left_right_super constructions in the back-end classes", False,
+                f"{len(found)} constructions found, expected 2")
+    for (ci_, mname, mu, st, tname) in found:
+        in_method = mu is u
+        in_base_ctor = mname == "__init__" and ci_ in bases
+        # skipping the constructions when the transform is the identity changes nothing
+        cond = [norm(t) for (t, br) in branch_context(mu.node, st)
+                if not (("allclose" in norm(t) or "array_equal" in norm(t))
+                        and ("identity" in norm(t) or "eye(" in norm(t)) and not br)]
+        reach_all = (in_method or in_base_ctor) and not cond
+        lacking = sorted(n_ for n_ in instantiated
+                         if not (in_method or (mname == "__init__" and any(
+                             b.name == ci_.name for b in prog.mro(next(
+                                 f for f in family if f.name == n_))))))
+        chk.add(rule, mu, f"{tname} is set for every object that rotates its influence tensor",
+                reach_all and not lacking,
+                f"set in {ci_.name}.{mname}, unconditionally" if reach_all and not lacking else
+                (f"set only in {ci_.name}.{mname}" + (f" under `{cond[0]}`" if cond else "") +
+                 (f"; objects of {lacking} (constructed directly in the package) never get it"
+                  if lacking else "") +
+                 ": their first influence tensor is not rotated out of the eigenbasis of the "
+                 "coupling operator (a non-diagonal coupling operator behaves as its diagonal form)"),
+                st)
     # PT-TEMPO hands the pair to the process tensor; the direction is in the keyword
     for q in sites[1:]:
         u = prog.unit(q)
